@@ -150,6 +150,13 @@ def inventory(ctx: Ctx) -> list[tuple]:
         non_identity, "non-identity return",
     ))
     inv.append((
+        _op_func(ctx, "Projection", "_begin_apply"),
+        [Required("identity-only-for-all-columns", "EQ", ("self.columns",), ("{p0}.columns",), True, None,
+                  reason="the do-nothing short-cut precedes the ColumnError guard, so it must imply it: only a projection onto "
+                         "exactly the target's columns is a no-op; a superset names a missing column and must be rejected")],
+        lambda p: p.outcome == "return" and is_identity_return(p), "Identity short-cut",
+    ))
+    inv.append((
         _op_func(ctx, "Selection", "_begin_apply"),
         [Required("predicate-columns-present", "LE", ("self.predicate.columns_required", "self.columns_required"), ("{p0}.columns",), True, "ColumnError",
                   reason="a predicate on a missing column must be rejected with ColumnError")],
